@@ -20,7 +20,7 @@ def run(pid, tier, replay):
     if pid in ("C10", "C11", "C12"):
         from . import p_src
         return p_src.main(pid, tier, replay)
-    if pid in ("C14",):
+    if pid in ("C14", "C15"):
         from . import p_pipe
         return p_pipe.main(pid, tier, replay)
     if pid == "C13":
